@@ -53,6 +53,12 @@ def run(F, rep, tier):
     c03.declared_types_known(F, rep)
     # a shape requirement (field, variant, index) recorded on a node survives that node being unified with another
     c03.unification_core(F, rep)
+    # a `ret` of a tuple of the wrong length deep in a block is compared with the other returns: what a block's statements return is
+    # unified with what its last statement returns; and every requirement on a node is looked at when the node is checked - a handler
+    # that ends the loop (`return` in the Equ arm) leaves the index / field / variant requirements behind it unchecked (shared with C03)
+    import core as _core5
+    _core5.borrow(rep, c03.obligations, lambda o: o["key"].startswith("expression_block|"), F)
+    _core5.borrow(rep, lambda F_, r_: c03.accept(F_, r_, "ACCEPT"), lambda o: o["rule"] == "ACCEPT" and o["key"].startswith("check_constraints|"), F)
     # tuples of different lengths do not unify (in either direction)
     import core
     core.borrow(rep, c03.obligations, lambda o: "tuple-length" in o["key"], F)
